@@ -66,10 +66,10 @@ def templates():
         ('recursion-inside-label-counted-rep', 'la:\n;\nlb:\ndef recin {\nrecin\n}\ndef body {\nrecin\n}\nrep((lb-la)/(2*w), i) body\n', True, 'recin'),
         ('chain-of-850-macros', ''.join(f'def c{k} {{\nc{k + 1}\n}}\n' for k in range(850)) + 'def c850 {\n;\n}\nc0\n', False, None),
         ('chain-of-899-macros', ''.join(f'def c{k} {{\nc{k + 1}\n}}\n' for k in range(899)) + 'def c899 {\n;\n}\nc0\n', False, None),
-        ('chain-of-901-macros', ''.join(f'def c{k} {{\nc{k + 1}\n}}\n' for k in range(901)) + 'def c901 {\n;\n}\nc0\n', True, 'depth'),
+        ('chain-of-901-macros', ''.join(f'def c{k} {{\nc{k + 1}\n}}\n' for k in range(901)) + 'def c901 {\n;\n}\nc0\n', True, 'macro-expansion'),
         ('guarded-recursion-850-deep', 'def d n {\nrep(n>0, i) d n-1\n}\nd 850\n;\n', False, None),
         ('guarded-recursion-899-deep', 'def d n {\nrep(n>0, i) d n-1\n}\nd 899\n;\n', False, None),
-        ('guarded-recursion-905-deep', 'def d n {\nrep(n>0, i) d n-1\n}\nd 905\n;\n', True, 'depth'),
+        ('guarded-recursion-905-deep', 'def d n {\nrep(n>0, i) d n-1\n}\nd 905\n;\n', True, 'macro-expansion'),
         ('duplicate-extern-label-by-two-expansions', 'def m > dupx {\ndupx:\n;\n}\nm\nm\n', True, 'dupx'),
         ('duplicate-label-through-a-parameter', 'def m lbl {\nlbl:\n;\n}\nm spot\nm spot\n', True, 'spot'),
         ('duplicate-label-through-a-parameter-in-rep', 'def m lbl {\nlbl:\n;\n}\nrep(2, i) m spot\n', True, 'spot'),
@@ -112,8 +112,8 @@ def templates():
         ('escape-XAb-in-string', ';"a\\XAbb" & 0xff\n', False, None),
         ('bad-escape-q-in-char', ';\'\\q\'\n', True, None),
         ('bad-hex-escape-one-digit', ';\'\\x4\'\n', True, None),
-        ('runaway-recursion-with-a-growing-label-argument', 'lbl:\n;\ndef f x {\nf x+1\n}\nf lbl\n', True, 'depth'),
-        ('runaway-recursion-with-a-growing-label-argument-in-rep', 'lbl:\n;\ndef f x {\nrep(1, i) f x+i+2\n}\nf lbl\n', True, 'depth'),
+        ('runaway-recursion-with-a-growing-label-argument', 'lbl:\n;\ndef f x {\nf x+1\n}\nf lbl\n', True, 'macro-expansion'),
+        ('runaway-recursion-with-a-growing-label-argument-in-rep', 'lbl:\n;\ndef f x {\nrep(1, i) f x+i+2\n}\nf lbl\n', True, None),  # the depth limit or the depth of the grown expression: either diagnostic is true
         ('macro-recursion-through-rep', 'def recrep {\nrep(1, i) recrep\n}\nrecrep\n', True, 'recrep'),
         ('macro-recursion-through-rep-with-arg', 'def recarg x {\nrep(2, i) recarg x+i\n}\nrecarg 0\n', True, 'recarg'),
         ('macro-mutual-recursion-through-rep', 'def ma {\nmb\n}\ndef mb {\nrep(1, i) ma\n}\nma\n', True, None),
